@@ -16,7 +16,7 @@ LEVEL_TEXT = ("Differential testing of a decoder with unit preferences against o
               "conversions). Converted values are compared with the exact conversion from the field's database unit.")
 TECHNIQUE = "differential testing with/without preferences + exact-conversion oracle over a systematic field sweep and Hypothesis maps"
 RULE = ("definitions with physical-quantity fields x accepted payloads (systematic boundary sweep of convertible fields + random) x preference "
-        "maps over {TEMPERATURE, PRESSURE, ANGLE, SPEED} and non-convertible quantities; oracle: all attributes equal except value (within "
+        "maps over {TEMPERATURE, PRESSURE, ANGLE, SPEED} and non-convertible quantities, pre-combined and frame-wise delivery, sibling definitions in sequence on one decoder, the same value in different fields of one quantity in one process; oracle: all attributes equal except value (within "
         "half the library's rounding step of the exact conversion) and unit label (== request ignoring case) of fields whose quantity has a "
         "recognised preference; raw and absent values untouched; non-trivial = message with >= 1 converted and >= 1 unconverted field, or an "
         "unrecognised preference; distinct = (definition, payload, preferences)")
